@@ -87,6 +87,12 @@ CHECKS['C10'] = dict(
     note='line-grain scheduling (CPython may switch between bytecodes); post-lexer configurations only in histories, as stated',
     ref='6/C10')
 
+CHECKS['C14'] = dict(
+    technique='TLA+ specification of scan() composed from the lexer and LALR specifications (leftmost successful attempt, longest completion as L0; the position bookkeeping of the loop as L1, L1=L0 checked on every judged run) evaluated by TLC on the spans the real scan() yields',
+    text='For random LALR grammars (keywords, priorities, nullable starts, ignored terminals that overlap kept ones) and texts, windows (TextSlice) and bytes, TLC computes from the regex-oracle match table the in-context tokenisation from every candidate start, feeds the LR(1)-propagation automaton, and derives the list of leftmost-longest matches; the real scan() under the basic and contextual lexers must yield exactly these spans, in increasing non-overlapping order, each value equal to parse(snippet) and carrying buffer coordinates.',
+    note='in-context tokenisation reading of "snippet that parses"; value/coordinate equalities computed on the real objects',
+    ref='6/C14')
+
 NOT_APPLICABLE = []
 
 
